@@ -241,6 +241,15 @@ def run(tier: str) -> int:
                         if re.match(r'(T|SC|NT|G|TI)_\d+$', nm) or nm in ('t_arg', 'size', 'table_len'):
                             print('   ', nm, mdl[dcl] if nm == 'table_len' else (mdl[dcl].as_signed_long() if nm.startswith('SC') else hex(mdl[dcl].as_long())))
     chk.coverage['rely_guarantee'] = {'functions': ['add_count', 'help_transfer', 'try_presize'], 'interference_points': rg_counter[0]}
+    chk.bounds['part1b'] = ('rely-guarantee: any number of other threads (modelled as arbitrary interference before every atomic access of add_count / help_transfer / try_presize), '
+                            'all 31 legal table lengths, all 64-bit control-word values; retry loops unrolled once (a second iteration starts from a fresh interference state)')
+    chk.assumptions += [
+        'part 1b assumes of the OTHER threads only INV and RELY: I1 a table has a legal length; I2 size_ctl < -1 carries the stamp of len(table), or of len(table)/2 with value rs+1 and next_table = null '
+        '(finisher between table swap and threshold store); I3 size_ctl >= 0 with a table is 0.75*len; I4 next_table != null implies a resize of the current table to twice its length; '
+        'I5 before initialisation size_ctl is 0 or the power-of-two length to allocate and the table is allocated at least that long; I6 size_ctl = -1 with a table means it is the first table; '
+        'RELY: lengths never decrease, a different table is strictly longer, equal length = same table, the generation in size_ctl never decreases',
+        'INV/RELY are evaluated on the concrete heap after every scheduling step of the part-2 interleavings (coverage.protocol_invariant_evaluations); they are not proved inductive for transfer()',
+    ]
 
     # ---- Q5 transfer: leaving decrements by one; exactly the thread that sees rs+2 finishes
     f = prog.get('map::HashMap::transfer')
@@ -347,10 +356,10 @@ def run(tier: str) -> int:
         ConcScenario('coop/reserve-vs-reserve', hasher='identity', capacity=1, prefill=[0], threads=[[('reserve', 6)], [('reserve', 6)]], preemptions=2, ncpu=2, yield_loads=th, inv='resize'),
         ConcScenario('coop/reserve-vs-insert', hasher='identity', capacity=1, prefill=[0, 1], threads=[[('reserve', 6)], [('insert', 2)]], preemptions=2, ncpu=2, yield_loads=th, inv='resize'),
         # one preemption at every access (loads included): a thread suspended between any two reads of try_presize while the other finishes a whole resize
-        ConcScenario('coop/reserve-big-vs-reserve-small/p1', hasher='identity', capacity=1, prefill=[0], threads=[[('reserve', 20)], [('reserve', 3)]], preemptions=(2 if th else 1), ncpu=2, yield_loads=True, inv='resize'),
-        ConcScenario('coop/reserve-vs-insert-growth/p1', hasher='identity', capacity=1, prefill=[0], threads=[[('reserve', 20)], [('insert', 1), ('insert', 2)]], preemptions=(2 if th else 1), ncpu=2, yield_loads=True, inv='resize'),
+        ConcScenario('coop/reserve-big-vs-reserve-small/p1', hasher='identity', capacity=1, prefill=[0], threads=[[('reserve', 20)], [('reserve', 3)]], preemptions=1, ncpu=2, yield_loads=True, inv='resize'),
+        ConcScenario('coop/reserve-vs-insert-growth/p1', hasher='identity', capacity=1, prefill=[0], threads=[[('reserve', 20)], [('insert', 1), ('insert', 2)]], preemptions=1, ncpu=2, yield_loads=True, inv='resize'),
         ConcScenario('coop/insert-x3/2bins', hasher='identity', capacity=1, prefill=[0], threads=[[('insert', 1)], [('insert', 2)], [('insert', 3)]], preemptions=(2 if th else 1), ncpu=4, yield_loads=False, inv='resize'),
-        ConcScenario('coop/tree-replaced-vs-resize', hasher='const', capacity=40, prefill=list(range(10)), setup_removes=[0, 1, 2], threads=[[('compute_none', 3)], [('reserve', 40)]], preemptions=(2 if th else 1), ncpu=2, yield_loads=False, inv='resize'),
+        ConcScenario('coop/tree-replaced-vs-resize', hasher='const', capacity=40, prefill=list(range(10)), setup_removes=[0, 1, 2], threads=[[('compute_none', 3)], [('reserve', 40)]], preemptions=1, ncpu=2, yield_loads=th, inv='resize'),
     ]
     if th:
         cs.append(ConcScenario('coop/insert-x2/32bins-helpers', hasher='identity', capacity=20, prefill=list(range(23)), threads=[[('insert', 23)], [('insert', 24)]], preemptions=2, ncpu=4, yield_loads=False, inv='resize'))
